@@ -65,9 +65,16 @@ def datasets():
         t = np.arange(N)
         out['r%d' % i] = np.cos(0.9 * t + i) + 0.5 * np.cos(2.1 * t + 0.3) + 0.125 * np.sin(7.7 * t * t + i)
         out['c%d' % i] = np.exp(1j * (0.9 * t + i)) + 0.5 * np.exp(-1j * 2.1 * t) + 0.125 * np.exp(1j * 7.7 * t * t)
+    # records that a tolerance-based 'unchanged?' test would confuse: a relative perturbation of 2e-6 of r0 / c0, and pairs of DIFFERENT
+    # records of very small amplitude (weak signals in SI units)
+    n = np.arange(20)
+    out['r0p'] = out['r0'] * (1 + 2e-6 * np.cos(3 * n)); out['c0p'] = out['c0'] * (1 + 2e-6 * np.cos(3 * n))
+    out['r0t'] = out['r0'] * 1e-10; out['r0u'] = out['r0'][::-1].copy() * 1e-10
+    out['c0t'] = out['c0'] * 1e-10; out['c0u'] = np.conj(out['c0'][::-1]) * 1e-10
     return out
 
 
+CLOSE_PAIRS = [('r0', 'r0p'), ('c0', 'c0p'), ('r0t', 'r0u'), ('c0t', 'c0u')]
 DATA = datasets()
 
 
@@ -288,6 +295,13 @@ def run_history(name, did, ops, check_conv=True):
         out, val = apply_op(p, op)
         trace.append((out, vlen(val) if op[0] in ('read', 'conv', 'freq') and out == 'ok' else -2, observe(p)))
         i = len(trace) - 1
+        if out == 'ok' and op[0] in ('set', 'setnp') and op[1] == 'data':
+            # the final attribute values are the ones that were ASSIGNED: an object that silently keeps its old samples would otherwise
+            # be compared with a fresh object built from those old samples
+            if not (np.shape(p.data) == np.shape(DATA[op[2]]) and np.array_equal(np.asarray(p.data), DATA[op[2]])):
+                bad.append(('read_is_fresh', 'the data assignment returned normally but the object still holds other samples '
+                            '(max difference %.3g): every later estimate is the one of the old data' %
+                            (float(np.max(np.abs(np.asarray(p.data) - DATA[op[2]]))) if np.shape(p.data) == np.shape(DATA[op[2]]) else float('nan')), i))
         if out == 'ok' and op[0] == 'conv' and check_conv:
             bad += [(c, w, i) for c, w in conv_check(name, p, op[1], val)]
         if out == 'ok' and op[0] == 'read':
